@@ -182,6 +182,7 @@ func runC09(c *Ctx) {
 			op = append(op, q)
 		}
 		ruleOnceResultLost(c, "ONCE-RESULT-LOST", op)
+		ruleJoinedErrWhole(c, "PARALLEL-ERR-WHOLE", op, 1)
 	}
 	c09ExpectedFromRequest(c, pkStore)
 	c09RevalidateUnconditional(c, pkStore, isMarkerPath)
